@@ -454,7 +454,7 @@ C05_RULE = (
 
 PLANS["C05"] = {
     "level": "exploration",
-    "technique": "exposed-slice monitor against the H1 live-chunk registry + AddressSanitizer build + Miri (aliasing model off) + debug 0xFC poison, on the iovec / codec / stream / readn histories with forced arena turnover and random drop orders",
+    "technique": "exposed-slice monitor against the H1 live-chunk registry + AddressSanitizer build + Miri (aliasing model off) + valgrind memcheck (thorough tier: uninitialised arena bytes) + debug 0xFC poison, on the iovec / codec / stream / readn histories with forced arena turnover and random drop orders",
     "rule": C05_RULE,
     "assumptions": IOVEC_ASSUME + ["lifetimes of caller buffers are enforced by the borrow checker on the harness itself and are not monitored",
                                    "ASan cannot see overruns that stay inside a live chunk; the disjointness and content checks cover those",
@@ -479,6 +479,9 @@ PLANS["C05"] = {
                  R("codec", "asan", mode="random", prod_cases=40000, tiny_cases=400000),
                  R("stream", "asan", mode="chunker,reader", chunk_cases=600000, reader_cases=400000),
                  R("readn", "asan", script_len=4, wrapper_script_len=3, cases=100000),
+                 R("iovec", "memcheck", cases=6000, focus="C05", timeout=6000),
+                 R("codec", "memcheck", mode="random", prod_cases=600, tiny_cases=6000, timeout=6000),
+                 R("stream", "memcheck", mode="chunker,reader", chunk_cases=6000, reader_cases=6000, timeout=6000),
                  R("iovec", "miri", cases=320, focus="C05", ops=60, timeout=6000, miriflags=MIRI_NOSB),
                  R("codec", "miri", mode="random", prod_cases=32, tiny_cases=320, timeout=6000, miriflags=MIRI_NOSB),
                  R("stream", "miri", mode="chunker,reader", chunk_cases=96, reader_cases=96, timeout=6000, miriflags=MIRI_NOSB)],
